@@ -16,6 +16,17 @@ def module_consts(src, rel):
                 and isinstance(v.args[0], (ast.List, ast.Tuple)):
             a = Arr(name, [Lin.const(len(v.args[0].elts))])
             out[name] = a
+        elif isinstance(v, ast.Call) and dotted(v.func) in ('np.array', 'np.asarray') and v.args and isinstance(v.args[0], (ast.ListComp, ast.GeneratorExp)) \
+                and len(v.args[0].generators) == 1 and not v.args[0].generators[0].ifs and isinstance(v.args[0].generators[0].iter, ast.Call) \
+                and dotted(v.args[0].generators[0].iter.func) == 'range' and len(v.args[0].generators[0].iter.args) == 1 \
+                and isinstance(v.args[0].generators[0].iter.args[0], ast.Constant) and type(v.args[0].generators[0].iter.args[0].value) is int:
+            # a table built by a comprehension over range(<literal>): that many entries
+            out[name] = Arr(name, [Lin.const(max(0, v.args[0].generators[0].iter.args[0].value))])
+        elif isinstance(v, ast.Call) and dotted(v.func) in ('np.array', 'np.asarray', 'np.zeros', 'np.ones', 'np.empty', 'np.arange', 'np.linspace', 'np.cumprod', 'np.cumsum'):
+            # a module-level table whose length is not a literal: an array of unknown length (every subscript of it is an obligation -- it used
+            # to be no value at all, so the accesses were silently not analysed: seed C11g)
+            d_ = Lin.sym(f'{name}.s0')
+            out[name] = Arr(name, [d_])
         elif isinstance(v, ast.Constant) and isinstance(v.value, int) and not isinstance(v.value, bool):
             out[name] = Int(v.value)
         elif isinstance(v, ast.Call) and dotted(v.func).startswith('np.') and len(v.args) == 1 \
